@@ -522,7 +522,11 @@ func (s *Service) ProcessRequest(ctx *core.Context, m map[string]interface{}, ou
 			limit = float64(-1)
 		}
 
-		history := core.GetTimerHistory(name, aft, int(limit.(float64)))
+		lim, ok := limit.(float64)
+		if !ok {
+			return nil, fmt.Errorf("bad limit %#v", limit)
+		}
+		history := core.GetTimerHistory(name, aft, int(lim))
 		js, err := json.Marshal(history)
 		if err != nil {
 			return m, err
